@@ -428,11 +428,20 @@ fn hostile_enum(out: &mut Out) {
         ("nothing", vec![], "failed"),
         ("na_only", cat(&[&hdr, &frame(b"na\n")]), "any"),
         ("ls_only", cat(&[&hdr, &frame(b"ls\n")]), "any"),
+        // a confirmation for a protocol that was never proposed (same length as the proposal "/a")
+        ("wrong_confirmation", cat(&[&hdr, &frame(b"/c\n"), b"xyz"]), "error"),
     ];
     for role in ["listener", "dialer", "lazy"] {
         for (case, input, expect) in &cases {
             // a lazy dialer settles before reading anything: its outcome is `ok`, errors show on the stream
-            let exp = if role == "lazy" { "any" } else { expect };
+            // ... and no read on it may ever succeed for any of these inputs
+            let exp = if role == "lazy" {
+                "lazy_err"
+            } else if role == "listener" && *case == "wrong_confirmation" {
+                "any" // for a listener this is just a proposal it does not support, then garbage
+            } else {
+                expect
+            };
             for chunks in [vec![], vec![1], vec![1, 1, 1], vec![2, 17], vec![19, 1, 1]] {
                 hostile_run(out, &json!({"role": role, "case": case, "expect": exp, "input": b2v(input), "chunks": chunks}));
             }
